@@ -262,7 +262,23 @@ func (tb *builtinTable) def(minDesk, minES int, spec string, impl builtinImpl, f
 		if !anyLV {
 			s.lvalue = nil
 		}
-		tb.byName[name] = append(tb.byName[name], s)
+		dup := false
+		for _, o := range tb.byName[name] {
+			if len(o.params) == len(s.params) {
+				same := true
+				for i := range o.params {
+					if o.params[i] != s.params[i] {
+						same = false
+					}
+				}
+				if same {
+					dup = true
+				}
+			}
+		}
+		if !dup {
+			tb.byName[name] = append(tb.byName[name], s)
+		}
 	}
 }
 
